@@ -511,8 +511,10 @@ func (p *Pattern) matchIdentical(state *MatcherState, sub *pattern, typ types.Ty
 			return false
 		}
 		objPath := obj.Pkg().Path()
-		if vendorPos := strings.Index(objPath, "/vendor/"); vendorPos != -1 {
+		if vendorPos := strings.LastIndex(objPath, "/vendor/"); vendorPos != -1 {
 			objPath = objPath[vendorPos+len("/vendor/"):]
+		} else {
+			objPath = strings.TrimPrefix(objPath, "vendor/")
 		}
 		return objPath == pkgPath
 
